@@ -217,6 +217,13 @@ def _pairs(target, value):
         if isinstance(value, (ast.Tuple, ast.List)) and len(value.elts) == len(target.elts):
             for t, v in zip(target.elts, value.elts):
                 yield from _pairs(t, v)
+        elif value is not None and isinstance(value, (ast.Name, ast.Attribute)) and not any(isinstance(t, ast.Starred) for t in target.elts):
+            # `a, b, c = seq`: element i of the sequence
+            for i, t in enumerate(target.elts):
+                sub = ast.Subscript(value=copy.deepcopy(value), slice=ast.Constant(value=i), ctx=ast.Load())
+                ast.copy_location(sub, value)
+                ast.fix_missing_locations(sub)
+                yield from _pairs(t, sub)
         else:
             for i, t in enumerate(target.elts):
                 yield from _pairs(t, None)
